@@ -51,6 +51,8 @@ def main(pid=PID):
     jobs, Lmax = parsecore.parser_jobs(quick)
     import tokencore
     jobs += tokencore.jobs(quick)
+    import regexcore
+    jobs += regexcore.jobs(quick)
     jobs.append(('selftest:binary operators parsed left-associatively', unit_parser, (5, 2, dict(kinds=['Var', 'And', 'Or'], mutate=('parse_sub_formula', 'parser::SymbolicBDD::parse_sub_formula(copy _1)', 'parser::SymbolicBDD::parse_simple_sub_formula(copy _1)')))))
     results = run_units(jobs)
     st = {}
@@ -67,6 +69,8 @@ def main(pid=PID):
         if r.get('cex'):
             if r['cex']['case'].get('kind') == 'parse':
                 replay_parse(rep, pid, name, r['cex'])
+            elif r['cex']['case'].get('kind') == 'regex':
+                regexcore.replay_regex(rep, pid, name, r['cex'])
             else:
                 tokencore.replay_token(rep, pid, name, r['cex'])
     rep.bounds = {'token_sequence_length': '0..%d tokens + Eof, every kind at every position (31-kind alphabet, 2 variable atoms, 64-bit constant); 8..%d tokens over %d focused sub-alphabets of 7..12 kinds' % (Lmax, 9 if quick else 11, len(parsecore.FOCUS)),
@@ -74,7 +78,9 @@ def main(pid=PID):
     rep.assumptions = ['library models (slice iterator, Peekable, Option/Result, Box, Vec push, format!/io::Error as opaque)',
                        'reference grammar in checks/refparser.py (README + property text)',
                        'regex engine modelled by its contract: captures_iter yields matches, each with exactly one named group set whose text is in that group\'s language']
-    rep.uncovered = ['the regex engine\'s own matching: longest-match/alternation order inside TOKENIZER (<=> before <= before <), comment and separator handling, characters outside the alphabet: these live in the regex crate and are not executed; a reordering of the alternation is NOT detected by this check',
+    rep.assumptions.append('regex semantics for the pattern unit (checks/regexcore.py): leftmost-first alternation, greedy/lazy repetition with backtracking, `$`, classes; the iterator resumes at the end of a non-empty match; characters abstracted into %d classes the pattern cannot split' % len(regexcore.ALPHA))
+    rep.bounds['pattern_text'] = 'TOKENIZER pattern read from src/parser.rs, executed symbolically on every text of <= %d characters (unknown length) over %d character classes' % (6 if quick else 8, len(regexcore.ALPHA))
+    rep.uncovered = ['the regex crate\'s implementation itself (the pattern is executed under the documented leftmost-first semantics, not through the crate\'s code); texts longer than the pattern-unit bound; a second regex or text rewriting before matching leaves the modelled fragment (inconclusive, not passed)',
                      'token sequences longer than the bound', 'random / mutated longer texts']
     return rep
 
